@@ -1,7 +1,7 @@
 PROP = dict(
     gen=["tpdulayouts", "smsoctets"],
     proof_files=["Properties/C18.v", "Proofs/TpduTotal.v", "Proofs/TpduReader.v", "Proofs/TpduReaderCompose.v"],
-    model_files=["Model/SemiOctet.v", "Model/Tpdu.v", "Model/TpduRun.v", "Model/TpduReader.v", "Model/TpduReaderRun.v"],
+    model_files=["Model/SemiOctet.v", "Model/Tpdu.v", "Model/TpduRun.v", "Model/TpduReader.v", "Model/TpduReaderRun.v", "Proofs/TpduMarshalEffect.v", "Model/TpduFieldRun.v"],
     trusted=["Gen/TpduLayouts.v: reflection over the structs sms.Unmarshal returns (dumper harness/gen_sms.go), classifying each field as the two walks dispatch it; GSM 7-bit tables read through the public decoder",
              "Go value -> Gallina observable printer harness/sms_common.go"],
     assumptions=["bufio.Reader over bytes.Reader, bytes.Buffer, reflect, time.Date/time.Time accessors, strconv.Itoa, x/text transform.Writer/Bytes are Go library code (modelled, tied by the generated cases)",
